@@ -1149,6 +1149,34 @@ namespace
             C[k] = true;
         }
         else if (op == "MoveConstruct") { need(!C[k] && C[j] && j != k, "raw<-constructed"); new (slot(k)) xtl::any(std::move(A(j))); C[k] = true; }
+        else if (op == "ConstructFrom")
+        {
+            // any b(e): e an any expression of the category the script names; overload resolution does the rest
+            need(!C[k] && C[j] && j != k, "raw<-constructed");
+            const std::string& cat = a.str("cat");
+            {
+                c06mem::lib_scope in_library;
+                if (cat == "rv") c06mem::g_lib = 0;        // a move is not an allocating call
+                if (cat == "lv") new (slot(k)) xtl::any(A(j));
+                else if (cat == "clv") new (slot(k)) xtl::any(static_cast<const xtl::any&>(A(j)));
+                else if (cat == "rv") new (slot(k)) xtl::any(static_cast<xtl::any&&>(A(j)));
+                else if (cat == "crv") new (slot(k)) xtl::any(static_cast<const xtl::any&&>(A(j)));
+                else script_error("cat");
+            }
+            C[k] = true;
+        }
+        else if (op == "AssignFrom")
+        {
+            need(C[k] && C[j], "constructed");
+            const std::string& cat = a.str("cat");
+            c06mem::lib_scope in_library;
+            if (cat == "rv") c06mem::g_lib = 0;
+            if (cat == "lv") A(k) = A(j);
+            else if (cat == "clv") A(k) = static_cast<const xtl::any&>(A(j));
+            else if (cat == "rv") A(k) = static_cast<xtl::any&&>(A(j));
+            else if (cat == "crv") A(k) = static_cast<const xtl::any&&>(A(j));
+            else script_error("cat");
+        }
         else if (op == "CopyAssign")
         {
             need(C[k] && C[j], "constructed");
